@@ -757,7 +757,7 @@ def r5_mode_agreement(w):
     inner = set(grammar.CHILDREN)
     code_only = set(grammar.CODE_EXPR) - set(grammar.MATH_EXPR)
     math_only = set(grammar.MATH_EXPR) - set(grammar.CODE_EXPR)
-    math_ok = set(grammar.MATH_EXPR) | {'Args', 'Named', 'Spread'}
+    math_ok = set(grammar.MATH_EXPR) | {'Args', 'Named', 'Spread', 'Array'}      # Array: the rows of two-dimensional math arguments `mat(1, 2; 3, 4)`
 
     def transitions(fn, K, P):
         """[(cond, Xkey, P', callee, supp_by)] of converter fn on a K node entered with printer context P = (mode, supp, after_hash, supp_origin)"""
